@@ -495,3 +495,82 @@ func apiSeqLine(t []string) string {
 }
 
 func init() { handlers["apiseq"] = apiSeqLine }
+
+// retkeep <cfg> <seed> <hexp> <hexq> [attr] : the host keeps the result OBJECT of the first run (vm.Ret) while the same VM runs q —
+// with "attr", it also stores that object as the variable `kept` before q runs. Reports the kept object's text before and after.
+func retKeepLine(t []string) string {
+	if len(t) != 5 && len(t) != 6 {
+		return "bad-op"
+	}
+	cfg, ok := parseCfg(t[1])
+	p, ok2 := unhx(t[3])
+	q, ok3 := unhx(t[4])
+	if !ok || !ok2 || !ok3 {
+		return "bad-op"
+	}
+	vm, ok := newVM(cfg, t[2])
+	if !ok {
+		return "bad-op"
+	}
+	return safely(func() string {
+		if err := vm.Run(p); err != nil {
+			return "err-first " + hx(err.Error())
+		}
+		kept := vm.Ret
+		if kept == nil {
+			return "nil-first"
+		}
+		before := kept.ToRepr()
+		if len(t) == 6 {
+			vm.StoreName("kept", kept, true)
+		}
+		res := runOne(vm, q)
+		after := kept.ToRepr()
+		v := "-"
+		if x, ok := vm.Attrs.Load("kept"); ok && x != nil {
+			v = hx(x.ToRepr())
+		}
+		return "before=" + hx(before) + " after=" + hx(after) + " var=" + v + " | " + res
+	})
+}
+
+// sharedsrc <cfg> <seedA> <seedB> <hexp> <mode> : VM a (seed A) and a second VM that shares a's generator object — a copy of a's
+// context struct (mode "copy") or a fresh VM handed a.RandSrc (mode "hand") — which is then given its OWN seed B through Seed + Init.
+// Afterwards a runs p. Reference: a fresh VM with seed A runs p.
+func sharedSrcLine(t []string) string {
+	if len(t) != 6 {
+		return "bad-op"
+	}
+	cfg, ok := parseCfg(t[1])
+	p, ok2 := unhx(t[4])
+	sb, err := hex.DecodeString(t[3])
+	if !ok || !ok2 || err != nil {
+		return "bad-op"
+	}
+	a, ok := newVM(cfg, t[2])
+	if !ok {
+		return "bad-op"
+	}
+	return safely(func() string {
+		var b *ds.Context
+		if t[5] == "copy" {
+			c := *a
+			b = &c
+		} else {
+			b, _ = newVM(cfg, "-")
+			b.RandSrc = a.RandSrc
+		}
+		b.Seed = sb
+		b.Init()
+		_ = runOne(b, "3d1000 + d1000")
+		got := runOne(a, p)
+		ref, _ := newVM(cfg, t[2])
+		want := runOne(ref, p)
+		return got + " || " + want
+	})
+}
+
+func init() {
+	handlers["retkeep"] = retKeepLine
+	handlers["sharedsrc"] = sharedSrcLine
+}
